@@ -122,7 +122,7 @@ class C03(Prop):
         return fails
 
     def known_signature(self, finding, case, ops, results, failure):
-        return finding["id"] == "K2" and header_collision(ops)
+        return finding["id"] == "K2" and header_collision(ops, failure)
 
     def nontrivial(self, case, ops, results):
         tests = set(kv["test"] for n, kv in ops if n == "match")
